@@ -24,6 +24,10 @@ TEXT = {
    text='Contract proof on the real fiber_barrier_wait (DFCC): one arrival per call, the serial branch wakes exactly count-1 once and never parks, every other arrival parks exactly once and returns only when the round is full (given the park contract); for symbolic count plus, for concrete counts 1..6 (quick) and 7..33 (thorough), all 2^64 arrival numbers: exactly the arrival completing the round is told SERIAL. Protocol lemma (which entries the serial fiber can pop) proved in the restricted form (no re-entry during the wake loop); the unrestricted lemma fails on the pinned tree: known finding D4 with a native witness.',
    note='Park/unpark by contract; the park contract (grant issued by my round\'s serial fiber) holds only under the twin restriction - D4; symbolic-count modulo cross-check infeasible for SAT (concrete counts instead, labelled); exactly count participants.',
    technique='CBMC function contracts (DFCC) on woven real code, protocol lemma, concrete-count instances for the modulo clause', ref='5 C12, 9 D4'),
+ 'C05': dict(
+   text='Unbounded rely/guarantee proof on the real fiber_cond_wait/signal/broadcast (DFCC contracts, interference before every access): wait registers (count+1) while still holding the caller mutex, parks exactly once through the deferred-unlock park, returns with the mutex re-acquired; signal under the internal mutex claims exactly one registered waiter and issues exactly one wake(1) or leaves the count as found (decrement/undo pair); broadcast takes all registered waiters atomically and issues exactly one wake(k); lemma layer: actions inductive, inside rely, signal releases one iff one is registered, broadcast releases all, nobody released without a claim.',
+   note='fiber_mutex_lock/unlock by the C03 contracts; park-and-unlock and wake by contract (trusted here, enforced under C01: the mutex is released only after enqueue + context save); SC; capacity 2^30.',
+   technique='CBMC function contracts (DFCC) on woven real code, rely/guarantee ghost counters, SAT lemmas', ref='5 C05'),
 }
 NOT_YET = 'check not built yet at this commit (DESIGN.md section 5 describes the planned contracts)'
 checks, na = [], []
